@@ -942,6 +942,31 @@ func c19BoundarySources() []Ev {
 	return out
 }
 
+// (source, destination) pairs kept under watch, in the text form of replay files
+func c19Pinned() [][2]string {
+	out := [][2]string{}
+	// OnNegativeInt at and above 2^63 used to lose its sign (repaired)
+	for _, d := range []string{"uint64", "uint", "int64", "int8", "float32", "float64", "*big.Int", "big.Int", "*big.Float", "big.Float"} {
+		out = append(out, [2]string{"ni:9223372036854775808", d}, [2]string{"ni:9223372036854775813", d}, [2]string{"ni:18446744073709551615", d})
+	}
+	out = append(out,
+		// UintToBigInt used to clear the low bit (repaired)
+		[2]string{"pi:9223372036854775809", "*big.Int"}, [2]string{"pi:9223372036854775809", "big.Int"}, [2]string{"pi:18446744073709551615", "*big.Int"},
+		// negative decimals into unsigned destinations used to wrap (repaired)
+		[2]string{"df:-5:0", "uint64"}, [2]string{"df:-5:0", "uint"}, [2]string{"df:-9223372036854775808:0", "uint64"}, [2]string{"df:-1:0", "uint8"},
+		[2]string{"bdf:0:true:5:0", "uint64"}, [2]string{"bdf:0:true:9223372036854775808:0", "uint64"}, [2]string{"bdf:0:true:50:-1", "uint64"}, [2]string{"bdf:0:true:0:0", "uint64"},
+		// BigDecimalFloatToBigInt used to drop the sign (repaired)
+		[2]string{"bdf:0:true:5:0", "*big.Int"}, [2]string{"bdf:0:true:5:3", "big.Int"}, [2]string{"bdf:0:true:0:0", "*big.Int"},
+		// big integers used to be narrowed into float32 unchecked (repaired)
+		[2]string{"bi:16777217", "float32"}, [2]string{"bi:-16777217", "float32"}, [2]string{"bi:340282366920938463463374607431768211456", "float32"},
+		[2]string{"bi:340282356779733661637539395458142568448", "float32"}, [2]string{"bi:340282346638528859811704183484516925440", "float32"},
+		[2]string{"bi:16777216", "float32"}, [2]string{"bi:1267650600228230582101135032320", "float32"}, [2]string{"bi:1267650600228230582101135032320", "float64"},
+		// still open: a big decimal rounded to a few bits on its way into an unsigned integer
+		[2]string{"bdf:0:false:1:19", "uint64"}, [2]string{"bdf:0:false:12:18", "uint64"}, [2]string{"bdf:0:false:1:19", "uint"},
+	)
+	return out
+}
+
 func (g *c19Gen) u64() uint64 {
 	r := g.c.Rng
 	switch r.Intn(6) {
@@ -1160,6 +1185,20 @@ func runC19(c *Ctx) {
 		if !v.ok {
 			c.Fail(c19Replay(route, lossy, d, e, doc, v, o))
 		}
+	}
+
+	// 0. pinned witnesses: the inputs on which earlier versions of the library violated the property
+	//    (repaired since) and the ones on which it still does. Always in the oracle and always compared with the model.
+	for _, pw := range c19Pinned() {
+		e, err := c19ParseSrc(pw[0])
+		if err != nil {
+			panic(err)
+		}
+		d := c19DstByName(pw[1])
+		o, v, sk, _ := c19Eval("direct", true, d, e, nil)
+		record("direct", true, d, e, nil, o, v, sk)
+		addConvCase(e, d, o, "pinned")
+		c.Dist("pinned/" + pw[0] + "->" + pw[1] + "/" + map[bool]string{true: "ok", false: "VIOLATION"}[v.ok])
 	}
 
 	// 1. direct and slice routes, default knob; correspondence cases from the direct route
